@@ -478,12 +478,17 @@ func c12Invoke(where string, md metadata.MD, idle func() bool, fn func(ctx conte
 	done := make(chan struct{})
 	go func() {
 		defer close(done)
+		returned := false
 		defer func() {
 			if p := recover(); p != nil {
 				out.panic = &c12Panic{Where: where, Val: fmt.Sprint(p), Stack: vstat.CleanStack(string(debug.Stack()))}
+			} else if !returned {
+				// panic(nil) (or runtime.Goexit) under a language version in which recover() then returns nil
+				out.panic = &c12Panic{Where: where, Val: "panic(nil)", Stack: vstat.CleanStack(string(debug.Stack()))}
 			}
 		}()
 		resp, err := fn(ctx)
+		returned = true
 		out.err = err
 		if err == nil && resp != nil {
 			// gRPC serialises the response on the handler's goroutine
